@@ -193,6 +193,33 @@ def rule_lookup(ctx):
         ctx.report('R14.3', 'lookup:miss', 'src/particle.c reb_simulation_particle_by_hash', 'a miss does not trigger a rebuild of the lookup table')
     if not any(x.get('kind') == 'CallExpr' and callee_name(x) == 'reb_update_particle_lookup_table' for x in walk(cfront.body(fn))):
         ctx.report('R14.3', 'lookup:rebuild', 'src/particle.c reb_simulation_particle_by_hash', 'the lookup table is never rebuilt')
+    # must-pass-through: an answer is handed back without a rebuild only on the path that found a particle and saw that it
+    # carries the requested hash; every other path (miss, stale entry) rebuilds the table first, whatever its bookkeeping says
+    from .. import normal
+    try:
+        ps = pathcond.paths(fn)
+    except ValueError as ex:
+        raise AnalysisError('R14.3: reb_simulation_particle_by_hash is no longer loop-free (%s)' % ex)
+    valid_txt, null_txt = set(), set()
+    for x in walk(cfront.body(fn)):
+        if x.get('kind') == 'BinaryOperator' and x.get('opcode') in ('!=', '=='):
+            a_, b_ = strip(x['inner'][0], casts=True), strip(x['inner'][1], casts=True)
+            for u, v in ((a_, b_), (b_, a_)):
+                if u.get('kind') == 'MemberExpr' and u.get('name') == 'hash' and v.get('kind') == 'DeclRefExpr' and v['referencedDecl'].get('name') == hparam[0]:
+                    valid_txt.add(pathcond._txt(x) if x['opcode'] == '==' else pathcond._txt(normal.negate(x)))
+                if '*' in qtype(u) and u.get('kind') == 'DeclRefExpr' and render(v).replace(' ', '') in ('0', '((void*)0)', 'NULL'):
+                    null_txt.add(pathcond._txt(x) if x['opcode'] == '==' else pathcond._txt(normal.negate(x)))
+        if x.get('kind') == 'UnaryOperator' and x.get('opcode') == '!' and '*' in qtype(strip(x['inner'][0], casts=True)):
+            null_txt.add(pathcond._txt(x))
+    for pth in ps:
+        n += 1
+        conds = [e[1] for e in pth if e[0] == 'cond']
+        rebuilt = any(e[0] == 'call' and e[1] == 'reb_update_particle_lookup_table' for e in pth)
+        validated = any(c in valid_txt for c in conds) and not any(c in null_txt for c in conds)
+        if not rebuilt and not validated:
+            ctx.report('R14.3', 'lookup:path:' + '&'.join(conds)[:60], 'src/particle.c reb_simulation_particle_by_hash',
+                       'on the path {%s} the function answers from the lookup table without rebuilding it although the entry was not seen to carry the requested hash: the table is a cache that goes stale when hashes are assigned or particles move, so an existing particle is reported as not found'
+                       % ', '.join(conds))
     fn = tu.func('reb_simulation_remove_particle_by_hash')
     n += 1
     rej = False
@@ -418,7 +445,41 @@ def rule_sort_order(ctx):
     ctx.covered('R14.7', 'qsort/bsearch comparators are overflow-free three-way comparisons; the bisection uses unsigned < and > on the same key', n, floor=3, samples=samples)
 
 
+def rule_python_index(ctx):
+    """R14.11: Particles.__getitem__/__setitem__ hand an integer key to a ctypes pointer, which performs no bound check of its
+    own (a negative index reads in front of the array). The integer branch only compares the key with 0 and N and shifts it
+    by N once, so it is decided on the keys -2N-2 .. 2N+1 for N = 0, 1, 3: the pointer is indexed only with 0 <= key < N,
+    every other key raises."""
+    from . import pyeval
+    db = pyfront.pydb()
+    cls = db.classes.get('Particles')
+    anchor(cls is not None and '__getitem__' in cls.defs, 'Particles.__getitem__')
+    n = 0
+    bad = {}
+    for meth in ('__getitem__',):
+        fn = cls.defs[meth]
+        for N in (0, 1, 3):
+            for key in range(-2 * N - 2, 2 * N + 2):
+                dom = {'key': [key], 'self.sim.N': [N]}
+                for env, r in pyeval.paths(fn, dom):
+                    # only the integer branch: a path that took an isinstance(key, str/slice/...) test as true is another key type
+                    for ln, what, kw, snap in r.events:
+                        if what != 'return' or kw.get('value') is None:
+                            continue
+                        v = kw['value']
+                        if isinstance(v, ast.Subscript) and isinstance(v.value, ast.Attribute) and v.value.attr.startswith('_ps'):
+                            n += 1
+                            idx = snap.get(ast.unparse(v.slice), pyeval.UNK)
+                            if idx is pyeval.UNK or not (0 <= idx < N):
+                                bad.setdefault((meth, ln), []).append('N=%d key=%d -> %s[%s]' % (N, key, ast.unparse(v.value), idx))
+    for (meth, ln), why in sorted(bad.items()):
+        ctx.report('R14.11', 'Particles.%s:range' % meth, 'rebound/particles.py:%d Particles.%s' % (ln, meth),
+                   'the particle pointer is indexed outside 0..N-1 (%s; %d cases): an out-of-range index does not fail, it reads (and through the returned object writes) another particle or memory in front of the array' % (why[0], len(why)))
+    ctx.covered('R14.11', 'Particles.__getitem__ integer branch evaluated for N in {0,1,3} and keys -2N-2..2N+1: pointer indexed only inside 0..N-1', n, floor=4)
+
+
 def run(ctx):
+    rule_python_index(ctx)
     rule_active_count_every_path(ctx)
     rule_sort_order(ctx)
     capacity.rule_release_resets_capacity(ctx, 'R14.8')
